@@ -4,6 +4,7 @@
 use super::broker::rand_bytes;
 use super::util::{PubLine, filter_text};
 use super::{CfgSpec, ConnSpec, Drv, Out, Sp};
+use crate::parse::PropSpec;
 
 const TX: [usize; 20] = [
     64, 1152, 64, 5, 64, 1152, 64, 6, 64, 1152, 64, 7, 64, 1152, 64, 16, 64, 1152, 64, 24,
@@ -170,13 +171,21 @@ pub fn arena(out: &mut Out, count: u64) {
     for idx in 0..count {
         let tx = TX[(idx % 20) as usize];
         let long = idx == 1;
+        // Downgrade: dg=1 and a CONNACK Maximum QoS of 0 or 1, so QoS 1/2 publishes go out lower.
+        let downgrade = match idx % 20 {
+            2 | 5 => Some(0u8),
+            6 | 9 => Some(1u8),
+            _ => None,
+        };
         let mut cfg = CfgSpec::basic(64, tx);
+        cfg.dg = downgrade.is_some();
         cfg.cid = String::new();
         cfg.exp = 3600;
         let name = out.base(idx);
         // Fresh twin first (only one interpreter at a time).
         let mut fresh = Drv::new(&cfg, out.rng(idx));
         fresh.split_rx = false;
+        fresh.connack_extra = downgrade.map(|q| vec![PropSpec::U8(0x24, q)]).unwrap_or_default();
         fresh.connect(&ConnSpec::plain());
         probe(&mut fresh, tx);
         out.emit(idx, ".fresh", &format!("twin={name} role=fresh tx={tx}"), &fresh);
@@ -184,6 +193,7 @@ pub fn arena(out: &mut Out, count: u64) {
 
         let mut d = Drv::new(&cfg, out.rng(idx));
         d.split_rx = false;
+        d.connack_extra = downgrade.map(|q| vec![PropSpec::U8(0x24, q)]).unwrap_or_default();
         d.connect(&ConnSpec::plain());
         let steps = if long { 1500 } else { d.rng.range(10, 70) as usize };
         history(&mut d, tx, steps, idx);
@@ -200,7 +210,8 @@ pub fn arena(out: &mut Out, count: u64) {
         }
         d.x("cancel");
         probe(&mut d, tx);
-        let tags = format!("twin={name} role=aged tx={tx}{}", if long { " long=1" } else { "" });
+        let dg_tag = downgrade.map(|q| format!(" dg=1 mq={q}")).unwrap_or_default();
+        let tags = format!("twin={name} role=aged tx={tx}{dg_tag}{}", if long { " long=1" } else { "" });
         out.emit(idx, "", &tags, &d);
     }
 }
